@@ -22,10 +22,14 @@ import (
 	"go/token"
 	"go/types"
 	"os"
+	"regexp"
 	"sort"
+	"strconv"
 	"strings"
 	"sync"
 )
+
+var hSuffixRe = regexp.MustCompile(`_h(\d+)\b`)
 
 type textEdit struct {
 	start, end int
@@ -147,7 +151,17 @@ func (w *World) inlineRound(overlay map[string][]byte) (map[string][]byte, []str
 	}
 	edits := map[string][]textEdit{}
 	var done []string
+	// suffixes of earlier rounds are still in the source: numbering continues above them, so that a name made up
+	// in this round can never coincide with one made up before
 	serial := 0
+	for name, src := range overlay {
+		_ = name
+		for _, m := range hSuffixRe.FindAllSubmatch(src, -1) {
+			if n, err := strconv.Atoi(string(m[1])); err == nil && n > serial {
+				serial = n
+			}
+		}
+	}
 	for _, h := range layer {
 		var hEdits = map[string][]textEdit{}
 		good := true
@@ -315,6 +329,12 @@ func (w *World) helperObstacle(f *Func) string {
 			for _, tg := range cs.Targets {
 				if tg == f {
 					return "recursive"
+				}
+				// a cycle that closes through a function the rules know (nestedLoopJoin -> qualifiedJoin ->
+				// nestedLoopJoin) disappears when the helper is substituted into it: the known function is then
+				// recursive itself, as it is in the reference tree. Only cycles among unknown helpers are obstacles.
+				if _, pinned := pinnedFuncs[tg.Name]; pinned && !w.aliased[tg] {
+					continue
 				}
 				if !seen[tg] {
 					seen[tg] = true
